@@ -29,7 +29,8 @@ def run(ctx):
     # concrete denotation
     sc = tc.denote_runs(ctx, full=not quick)
     if quick:
-        sc = sc[::2]
+        big = [x for x in sc if any(r["hi"] - r["lo"] > 1000 or r["lo"] == 0 for r in x["ranges"])]
+        sc = big + [x for x in sc if x not in big][::2]
     trace = tc.run_parallel(ctx, "^TestVfDenote$", sc, "c01d", procs=12)
     n1 = tc.validate_denote(ctx, trace, "C01", "c01d")
     # binding self-test: a histogram with one probe missing must be rejected
